@@ -78,6 +78,7 @@ func (t *Trie) putBatchIntoBranch(curr *BranchNode, kv []keyValue) (Node, int, e
 }
 
 func (t *Trie) mergeExtension(prefix []byte, sub Node) (Node, error) {
+	prefix = slices.Clip(prefix) // It's a part of batch's key, avoid touching the rest of it on append.
 	switch sn := sub.(type) {
 	case *ExtensionNode:
 		t.removeRef(sn.Hash(), sn.bytes)
